@@ -107,6 +107,28 @@ pub fn run(prop: &CliProp, tier: Tier) -> i32 {
         }
     }
 
+    // R0: saved inputs of repaired defects
+    for (name, c) in crate::run::load_regressions(prop.id) {
+        let Some(case) = CliCase::from_json(&c) else {
+            stats.notes.push(format!("regression file {name}: unreadable case"));
+            continue;
+        };
+        match judge(prop, &case) {
+            Ok((Verdict::Fail(d), run)) => {
+                stats.count("R0-regression");
+                rep.violation(replay_value(prop.id, &case, &d, &format!("R0:{name}"), Some(&run)), "R0");
+            }
+            Ok((Verdict::Pass { nontrivial }, _)) => {
+                stats.count("R0-regression");
+                if nontrivial {
+                    stats.nontrivial.insert(case.hash64());
+                }
+            }
+            Ok((Verdict::Skip(w), _)) => stats.skip(w),
+            Err(e) => infra.push(e),
+        }
+    }
+
     if let Some(extra) = prop.extra {
         extra(&mut rep, &mut stats, tier);
     }
